@@ -116,17 +116,28 @@ func c16allDefs(v ssa.Value, leaf func(ssa.Value) bool) bool {
 			return b != nil && walk(b, d+1)
 		case *ssa.Parameter:
 			fn := y.Parent()
-			if fn == nil || !c16onlyStatic(fn) {
+			if fn == nil {
 				return false
 			}
-			idx := -1
-			for k, p := range fn.Params {
-				if p == y {
-					idx = k
+			idx := c16paramIndex(y)
+			if idx < 0 {
+				return false
+			}
+			if dyn, ok := c16dynSites(fn); ok && len(dyn) > 0 {
+				// a closure handed to a wrapper that calls it (per entry, under the lock ...): what the wrapper passes
+				for _, s := range dyn {
+					cc := s.Common()
+					if idx >= len(cc.Args) || !walk(cc.Args[idx], d+1) {
+						return false
+					}
 				}
+				return true
+			}
+			if !c16onlyStatic(fn) {
+				return false
 			}
 			sites := gSites[fn]
-			if idx < 0 || len(sites) == 0 {
+			if len(sites) == 0 {
 				return false
 			}
 			for _, s := range sites {
@@ -181,11 +192,7 @@ func (k *c16keys) ok(v ssa.Value) bool {
 // ---- P1 / P2 / P3 ---------------------------------------------------------------------------------------------------------
 
 func runC16P(c *Ctx) {
-	sp := c.spkg("proxy")
-	if sp == nil {
-		c.undecided("C16.P1", "anchor|package proxy", "package proxy not loaded")
-		return
-	}
+	c16resolve(c)
 	keys := c16poolKeys(c)
 	fresh := func(m ssa.Value) bool {
 		// constructor initialisation of a fresh pool is not shared yet
@@ -196,9 +203,10 @@ func runC16P(c *Ctx) {
 		}
 		return false
 	}
+	// the pool is wherever a map of client connections is used: package proxy today, possibly a package of its own
 	var pfns []*ssa.Function
 	for _, f := range c.AllFns {
-		if rootPkg(f) == sp {
+		if isRepoFn(f) && c16grpcPkg(rootPkg(f)) {
 			pfns = append(pfns, f)
 		}
 	}
@@ -335,101 +343,6 @@ func c16poolKeys(c *Ctx) *c16keys {
 
 // ---- P3: the janitor ------------------------------------------------------------------------------------------------------
 
-// c16membership describes a fact "G(key, table) == truth" at a block: G is a repository predicate that is given the
-// range key and the routing table (or fetches it). has is the truth value with which G reports that the key IS in the
-// table (found from the `return <const>` under the key comparison inside G; true when that cannot be read off).
-type c16membership struct {
-	fn    *ssa.Function
-	truth bool
-	has   bool
-	cmp   []*ssa.BinOp // the key comparisons inside G
-	other []ssa.Value  // what the key is compared with (parallel to cmp)
-	pos   []token.Pos  // where (parallel to cmp)
-}
-
-func c16memberFacts(b *ssa.BasicBlock, keys *c16keys) []c16membership {
-	return c16memberOf(factsAt(b), keys)
-}
-
-func c16memberOf(facts []Fact, keys *c16keys) []c16membership {
-	var out []c16membership
-	for _, ft := range facts {
-		if m, ok := c16setMembership(ft, keys); ok {
-			out = append(out, m)
-			continue
-		}
-		call, ok := ft.Cond.(*ssa.Call)
-		if !ok {
-			continue
-		}
-		sc := call.Call.StaticCallee()
-		if sc == nil || !isRepoFn(sc) || len(sc.Blocks) == 0 || typeStr(call.Type()) != "bool" {
-			continue
-		}
-		keyIdx, tbl := -1, false
-		for k, a := range call.Call.Args {
-			if typeStr(a.Type().Underlying()) == "string" && keys.ok(a) {
-				keyIdx = k
-			}
-			if namedIs(a.Type(), "route.Table") {
-				tbl = true
-			}
-		}
-		if !tbl {
-			tbl = mayExec(sc, func(i ssa.Instruction) bool {
-				cc := callCommon(i)
-				return cc != nil && calleeName(cc) == repoMod+"/route.GetTable"
-			}, 0)
-		}
-		if keyIdx < 0 || !tbl || keyIdx >= len(sc.Params) {
-			continue
-		}
-		m := c16membership{fn: sc, truth: ft.Truth, has: true}
-		kp := sc.Params[keyIdx]
-		isKP := func(v ssa.Value) bool { return derives(v, func(x ssa.Value) bool { return x == kp }) }
-		var verdicts []bool
-		for _, g := range withAnon(sc) {
-			eachInstr(g, func(i ssa.Instruction) {
-				if bo, ok := i.(*ssa.BinOp); ok && (bo.Op == token.EQL || bo.Op == token.NEQ) && typeStr(bo.X.Type().Underlying()) == "string" {
-					switch {
-					case isKP(bo.X) && !isKP(bo.Y):
-						m.cmp, m.other, m.pos = append(m.cmp, bo), append(m.other, bo.Y), append(m.pos, bo.Pos())
-					case isKP(bo.Y) && !isKP(bo.X):
-						m.cmp, m.other, m.pos = append(m.cmp, bo), append(m.other, bo.X), append(m.pos, bo.Pos())
-					}
-				}
-				r, ok := i.(*ssa.Return)
-				if !ok || len(r.Results) != 1 || g != sc {
-					return
-				}
-				bv, isK := constBool(r.Results[0])
-				if !isK {
-					return
-				}
-				for _, f2 := range localFactsAt(r.Block()) {
-					bo, ok := f2.Cond.(*ssa.BinOp)
-					if !ok || !(isKP(bo.X) || isKP(bo.Y)) {
-						continue
-					}
-					if (bo.Op == token.EQL && f2.Truth) || (bo.Op == token.NEQ && !f2.Truth) {
-						verdicts = append(verdicts, bv)
-					}
-				}
-			})
-		}
-		if len(verdicts) > 0 {
-			m.has = verdicts[0]
-			for _, v := range verdicts {
-				if v != m.has {
-					m.has = true // contradictory: fall back to the "has" reading
-				}
-			}
-		}
-		out = append(out, m)
-	}
-	return out
-}
-
 func c16isSleepLike(i ssa.Instruction) bool {
 	switch x := i.(type) {
 	case *ssa.Call:
@@ -510,7 +423,7 @@ func runC16P3(c *Ctx, pfns []*ssa.Function, keys *c16keys) {
 					return
 				}
 				nPause++
-				c.check("C16.P3", "proxy.(*grpcConnectionPool).cleanup|lock released before sleeping", i.Pos(), len(heldAt(i, false)) == 0,
+				c.check("C16.P3", "proxy.(*grpcConnectionPool).cleanup|lock released before sleeping", i.Pos(), !c16mayHold(i, 0),
 					"sleeping while holding the pool lock blocks every gRPC call for the whole cleanup interval")
 			})
 		}
@@ -550,10 +463,10 @@ func runC16P3(c *Ctx, pfns []*ssa.Function, keys *c16keys) {
 					return
 				}
 				for _, m := range c16memberFacts(i.Block(), keys) {
-					if m.truth != m.has {
+					if m.truth == m.miss && m.miss != m.has {
 						delUnderMiss = true
-						for n := range m.cmp {
-							c.check("C16.P3", fnKey(m.fn)+"|table membership is tested with the pool key", m.pos[n], keys.ok(m.other[n]),
+						for n := range m.other {
+							c.check("C16.P3", fnKey(m.where(n))+"|table membership is tested with the pool key", m.pos[n], keys.ok(m.other[n]),
 								"whether a pooled connection's target is still in the table must be decided by comparing the entry's key with the pool key of the table's targets; compared with anything else no entry ever matches and every connection is dropped at each sweep (no reuse), or stale ones are kept")
 						}
 					}
@@ -585,9 +498,12 @@ func runC16P3(c *Ctx, pfns []*ssa.Function, keys *c16keys) {
 				}
 				for _, m := range c16memberOf([]Fact{{cond, true}}, keys) {
 					// successor on which the entry's target is NOT in the table
-					missIdx := 0 // Succs[0] is taken when the condition is true
-					if m.has != neg {
-						missIdx = 1
+					if m.miss == m.has {
+						continue // the test does not tell the two cases apart
+					}
+					missIdx := 1 // Succs[0] is taken when the condition is true
+					if m.miss != neg {
+						missIdx = 0
 					}
 					start := iff.Block().Succs[missIdx]
 					escaped := false
@@ -621,8 +537,8 @@ func runC16P3(c *Ctx, pfns []*ssa.Function, keys *c16keys) {
 					}
 					if !escaped {
 						delUnderMiss = true
-						for n := range m.cmp {
-							c.check("C16.P3", fnKey(m.fn)+"|table membership is tested with the pool key", m.pos[n], keys.ok(m.other[n]),
+						for n := range m.other {
+							c.check("C16.P3", fnKey(m.where(n))+"|table membership is tested with the pool key", m.pos[n], keys.ok(m.other[n]),
 								"whether a pooled connection's target is still in the table must be decided by comparing the entry's key with the pool key of the table's targets")
 						}
 					}
@@ -667,7 +583,7 @@ func c16setMembership(ft Fact, keys *c16keys) (c16membership, bool) {
 		return c16membership{}, false
 	}
 	// where the set is filled
-	m := c16membership{truth: ft.Truth, has: true}
+	m := c16membership{truth: ft.Truth, has: true, miss: false}
 	tableSeen := false
 	seen := map[ssa.Value]bool{}
 	var walk func(v ssa.Value, d int)
